@@ -1143,7 +1143,7 @@ def run(ctx):
                 ctx.broken("driver:gov", e)
             else:
                 process(ctx, exe, [(h, ini, st) for h, (ini, st) in zip(corpus, res)], known, stats, do_shrink=False)
-        count, maxlen = (420, 18) if ctx.quick else (8000, 26)
+        count, maxlen = (360, 18) if ctx.quick else (8000, 26)
         done = 0
         while done < count:
             k = min(300, count - done)
